@@ -11,14 +11,47 @@ with Model.Spec.spec_encode of the ABSTRACT file evaluated by the extracted mode
 container x index variants are also compared with each other.
 """
 import os
+import itertools
 import shutil
 
 from lib import absvcf, oracle, vcfgen
 
 
-def gen(ctx, seed):
+def widen(case, k):
+    """turn record k into a site with 130 ALT alleles whose genotypes use allele indexes 127..130
+    (beyond int8); Number=A/R/G values of that record are dropped (absent = missing)"""
+    x = case["recs"][k]
+    seen = {x["ref"]}
+    alts = []
+    for a in itertools.product("ACGT", repeat=4):
+        a = "".join(a)
+        if a not in seen:
+            alts.append(a)
+            seen.add(a)
+        if len(alts) == 130:
+            break
+    x["alts"] = alts
+    for key, n, t in case["infos"]:
+        if n in ("A", "R", "G"):
+            x["info"].pop(key, None)
+    drop = {key for key, n, t in x.get("fmt_keys", []) if n in ("A", "R", "G")}
+    keep = [f for f in x.get("fmt_keys", []) if f[0] not in drop]
+    if keep or x["gt"] is not None:
+        x["fmt_keys"] = keep
+        for key in drop:
+            x["fmt"].pop(key, None)
+    if x["gt"] is not None:
+        hi = itertools.cycle([127, 128, 129, 130, 0, 126])
+        x["gt"] = [([None if a is None else next(hi) for a in al], ph) for al, ph in x["gt"]]
+    case["wide_site"] = k
+
+
+def gen(ctx, seed, force_wide=False):
     case = absvcf.gen_case(seed)
     r = ctx.rnd
+    cands = [k for k, x in enumerate(case["recs"]) if x["gt"] is not None]
+    if cands and (force_wide or r.random() < 0.12):
+        widen(case, cands[len(cands) // 2])
     # contig blocks of the file in an order that differs from the header lines (text VCF allows it)
     if r.random() < 0.3 and len({x["contig"] for x in case["recs"]}) > 1:
         case["file_order"] = "reversed-contigs"
@@ -60,12 +93,12 @@ def run(ctx):
     os.makedirs(d)
     for i in range(ctx.n(40, 1500)):
         seed = ctx.seed * 1000003 + i
-        case = gen(ctx, seed)
+        case = gen(ctx, seed, force_wide=(i % 16 == 5))
         intern = oracle.Intern()
         spec = oracle.spec_arrays(ctx, case, intern)
         text = file_text(case)
         doc0 = dict(gen_seed=seed, records=len(case["recs"]), samples=len(case["samples"]), infos=[f"{k}:{n}:{t}" for k, n, t in case["infos"]],
-                    fmts=[f"{k}:{n}:{t}" for k, n, t in case["fmts"]], file_order=case.get("file_order", "header"))
+                    fmts=[f"{k}:{n}:{t}" for k, n, t in case["fmts"]], file_order=case.get("file_order", "header"), wide_site=case.get("wide_site"))
         if spec is None:
             ctx.note(f"specification refuses case {seed}")
             continue
@@ -102,6 +135,8 @@ def replay(ctx, rep):
         case = absvcf.gen_case(seed)
         if c.get("file_order") == "reversed-contigs":
             case["file_order"] = "reversed-contigs"
+        if c.get("wide_site") is not None:
+            widen(case, c["wide_site"])
         intern = oracle.Intern()
         spec = oracle.spec_arrays(ctx, case, intern)
         d = os.path.join(ctx.work, "c01")
